@@ -100,6 +100,30 @@ def wsdl(wsgi):
     return b''.join(wsgi(env, lambda s, h, e=None: st.append(s)))
 
 
+def histories(desc):
+    """the WSDL as served after different histories of the objects that serve it -> [(name, document)]"""
+    from spyne.server.wsgi import WsgiApplication
+    out = []
+    # the recipe of the WsgiApplication docstring: the document is built ahead of the first request, with the public URL
+    w, _, _ = build(desc)
+    w.doc.wsdl11.build_interface_document('http://x/')
+    out.append(('prebuilt', wsdl(w)))
+    out.append(('prebuilt, again', wsdl(w)))
+    # two transports over one application: the second one serves what the first one had built
+    w1, _, _ = build(desc)
+    w2 = WsgiApplication(w1.app)
+    wsdl(w1)
+    out.append(('second transport', wsdl(w2)))
+    out.append(('first transport, after the second', wsdl(w1)))
+    # the interface document object asked directly, before and after a transport served it
+    w3, _, _ = build(desc)
+    w3.doc.wsdl11.build_interface_document('http://x/')
+    out.append(('direct', w3.doc.wsdl11.get_interface_document()))
+    wsdl(w3)
+    out.append(('direct, after serving', w3.doc.wsdl11.get_interface_document()))
+    return out
+
+
 BUILTINS = None
 
 
